@@ -158,7 +158,7 @@ def pathsum_known(t):
 
 def src(t, fi):
     """Where a payload value comes from, in the reference's vocabulary."""
-    me = fi.params[0] if fi.kind == 'instance' and fi.params else None
+    me = fi.all_params[0] if fi.kind == 'instance' and fi.params else None
     if t[0] == 'sym' and t[1] in fi.params and t[1] != me:
         return 'param:%s' % t[1]
     if t[0] == 'const':
@@ -224,7 +224,7 @@ def requests_shape(report, db, F, S, mod, tok, ref):
     n = 0
     for op, spec in sorted(ref['operations'].items()):
         fi, paths = S.op(op)
-        me = fi.params[0] if fi.kind == 'instance' else None
+        me = fi.all_params[0] if fi.kind == 'instance' else None
         probs = []
         seen = 0
         site = fi.node
@@ -333,10 +333,10 @@ def requests_shape(report, db, F, S, mod, tok, ref):
         kw = dict(c.kwargs)
         url = c.args[0] if c.args else kw.get('url')
         data = c.args[1] if len(c.args) > 1 else kw.get('data')
-        want_url = ('op', 'concat', (('sym', mk.params[0]), ('const', '/'),
-                                     ('sym', mk.params[1])))
+        want_url = ('op', 'concat', (('sym', mk.all_params[0]), ('const', '/'),
+                                     ('sym', mk.all_params[1])))
         want_data = ('call', ('ext', 'json.dumps'),
-                     (('sym', mk.params[2]),), (), None)
+                     (('sym', mk.all_params[2]),), (), None)
         if url is None or struct(url) != want_url:
             okk, why = False, 'url is %s' % (show(url) if url else None)
         elif data is None or struct(data) != want_data:
@@ -392,7 +392,7 @@ def stores(report, db, S, tok, ref):
                     'other operations store nothing')
     for op in ('authenticate', 'refresh'):
         fi, paths = S.op(op)
-        me = fi.params[0]
+        me = fi.all_params[0]
         want = ref['stored_on_success'][op]
         bad = False
         nret = 0
@@ -467,7 +467,7 @@ def stores(report, db, S, tok, ref):
         if fi.kind == 'static':
             report.ok(R, '%s is static: cannot touch the token' % op)
             continue
-        me = fi.params[0]
+        me = fi.all_params[0]
         st = [e for p in paths for e in p.flat(('store', 'setitem'))
               if rooted_at(e.base, me)]
         if st:
@@ -485,7 +485,7 @@ def error_mapping(report, db, S, mod):
                     'the status code; service fields only for a well-formed '
                     'error body, else a "malformed" message')
     fi = S.rf
-    res = ('sym', fi.params[0])
+    res = ('sym', fi.all_params[0])
     paths = S.paths(fi, opaque_units=False)
     ygg = db.resolve_dotted(mod, ast.Name(id='YggdrasilError',
                                           ctx=ast.Load()))
@@ -670,7 +670,7 @@ def results(report, db, S, tok):
         report.violation(R, 'sign_out:check', fi.path, fi.node, fi.qualname,
                          'sign_out ignores error replies')
     fi, paths = S.op('join')
-    me = fi.params[0]
+    me = fi.all_params[0]
     auth = ('op', 'truth', (('attr', ('sym', me), 'authenticated'),))
     okj = True
     why = ''
